@@ -374,7 +374,8 @@ func cmdCheck(args []string) {
 	for _, g := range gens {
 		for _, o := range g.obls {
 			if _, locked := lock[o.Name]; locked && o.Status != "" && !oblOK(o) && hasProp(propsOf(g.F, o), id) {
-				rs, _ := newSolver(timeout*3, false)
+				rs, _ := newSolver(timeout*2, false)
+				rs.noSplit = o.Hint != "case-split"
 				rs.prelude, rs.lean = s.prelude, s.lean
 				rs.cacheDir = ""
 				first := o.Status
